@@ -1,5 +1,6 @@
 import StepModel.GenCxxMirror
 import StepModel.GenCxxFlags
+import StepModel.GenCxxFlagSpec
 import StepModel.RegistryModel
 import StepModel.Accessors
 /-!
@@ -370,6 +371,42 @@ theorem C02_flags_preserve_order (s : Schema) (n : String) :
   congr 1
   funext id
   cases (ctorNF s (fuelOf s) n {}).objs[id]? <;> rfl
+
+/-! ## which attributes are flagged derived -/
+
+/-- Specification of the `MakeDerived( x, cr )` calls that `initializeAttrs` prints into the constructors of an entity with a
+    single-inheritance ancestry (ordered_attrs.cc `populateAttrList` + `dedupList`): exactly one call per attribute name `x`
+    whose FIRST occurrence along the chain (root first, declaration order) is in entity `cr`, and which is either declared in
+    a DERIVE clause there or occurs again later on the chain (that is: is redeclared — as derived OR as explicit). -/
+theorem C02_derived_calls_chain {s : Schema} {n : String} {c : List Entity} (h : IsChain s n c)
+    (hf : c.length ≤ fuelOf s) (x cr : String) :
+    (x, cr) ∈ derivedCalls s n ↔ DerivedCall (flatAttrs c) x cr :=
+  derivedCalls_chain h hf x cr
+
+/-- Deviation 1 from what Part 21 intends (11.2.6: only a redeclaration AS DERIVED makes the supertype's position `*`): an
+    EXPLICIT redeclaration `SELF\a.y : REAL` also marks `a.y` derived (and redefined).  Asked of the real code: INST lines of
+    corpus d1-diamond-explicit-redeclaration show `a.y/Edr`. -/
+theorem C02_flags_explicit_redeclaration_witness :
+    instanceFlags
+      { name := "w1", entities := [
+          { name := "a", attrs := [{ name := "y", type := .base .real }] },
+          { name := "r", supers := ["a"], attrs := [{ name := "y", redecl := some "a", type := .base .real }] }] } "r"
+      = some [(⟨"a", "y", .E⟩, true, true), (⟨"r", "a.y", .R⟩, false, false)] := by
+  decide
+
+/-- Deviation 2: a derivation on a NON-principal path is lost.  `u SUBTYPE OF (c, b)`, `b` redeclares `SELF\a.x` as derived:
+    in an instance of `u` the attribute `a.x` is not flagged (the part constructor of `b` marks its own copy, which the head
+    rejected as a duplicate; and `dedupList` drops the marked `orderedAttr`), whereas for `u SUBTYPE OF (b, c)` it is. -/
+theorem C02_flags_second_supertype_witness :
+    let sch (sups : List String) : Schema :=
+      { name := "w2", entities := [
+          { name := "a", attrs := [{ name := "x", type := .base .integer }] },
+          { name := "b", supers := ["a"], attrs := [{ name := "x", redecl := some "a", kind := .derived, type := .base .integer }] },
+          { name := "c", supers := ["a"] },
+          { name := "u", supers := sups }] }
+    instanceFlags (sch ["c", "b"]) "u" = some [(⟨"a", "x", .E⟩, false, false)] ∧
+    instanceFlags (sch ["b", "c"]) "u" = some [(⟨"a", "x", .E⟩, true, false)] := by
+  decide
 
 /-! ## emission order -/
 
